@@ -11,6 +11,24 @@ from amoco.cas.utils import *
 
 # ------------------------------------------------------------------------------
 # helpers and decorators :
+def _signed(x):
+    "signed view of x: the operand itself (possibly a shared register object) is left untouched"
+    from copy import copy
+
+    x = copy(x)
+    x.sf = True
+    return x
+
+
+def _unsigned(x):
+    "unsigned view of x: the operand itself (possibly a shared register object) is left untouched"
+    from copy import copy
+
+    x = copy(x)
+    x.sf = False
+    return x
+
+
 def _push_(fmap, _x):
     fmap[sp] = fmap[sp] - _x.length
     fmap[mem(sp, _x.size)] = _x
@@ -105,7 +123,7 @@ def i_SLT(ins, fmap):
     dst, rs1, rs2 = ins.operands
     if dst is not zero:
         # signed comparison of the values:
-        _t = fmap(rs1).signed() < fmap(rs2).signed()
+        _t = _signed(fmap(rs1)) < _signed(fmap(rs2))
         fmap[dst] = tst(_t, cst(1, 64), cst(0, 64)).simplify()
 
 
@@ -122,7 +140,7 @@ def i_SLTI(ins, fmap):
     dst, rs1, rs2 = ins.operands
     if dst is not zero:
         # signed comparison of the values:
-        _t = fmap(rs1).signed() < fmap(rs2).signed()
+        _t = _signed(fmap(rs1)) < _signed(fmap(rs2))
         fmap[dst] = tst(_t, cst(1, 64), cst(0, 64)).simplify()
 
 
@@ -137,7 +155,7 @@ def i_SLTIU(ins, fmap):
 @__npc
 def i_SLL(ins, fmap):
     dst, src1, src2 = ins.operands
-    src1.sf = src2.sf = False
+    src1, src2 = _unsigned(src1), _unsigned(src2)
     src2 = src2 & 0x3F
     if dst is not zero:
         fmap[dst] = fmap(src1 << src2)
@@ -146,7 +164,7 @@ def i_SLL(ins, fmap):
 @__npc
 def i_SRL(ins, fmap):
     dst, src1, src2 = ins.operands
-    src1.sf = src2.sf = False
+    src1, src2 = _unsigned(src1), _unsigned(src2)
     src2 = src2 & 0x3F
     if dst is not zero:
         fmap[dst] = fmap(src1 >> src2)
@@ -155,8 +173,7 @@ def i_SRL(ins, fmap):
 @__npc
 def i_SRA(ins, fmap):
     dst, src1, src2 = ins.operands
-    src1.sf = True
-    src2.sf = False
+    src1, src2 = _signed(src1), _unsigned(src2)
     src2 = src2 & 0x3F
     if dst is not zero:
         fmap[dst] = fmap(oper(OP_ASR, src1, src2))
@@ -165,7 +182,7 @@ def i_SRA(ins, fmap):
 @__npc
 def i_SLLI(ins, fmap):
     dst, src1, src2 = ins.operands
-    src1.sf = src2.sf = False
+    src1, src2 = _unsigned(src1), _unsigned(src2)
     if dst is not zero:
         fmap[dst] = fmap(src1 << src2)
 
@@ -173,7 +190,7 @@ def i_SLLI(ins, fmap):
 @__npc
 def i_SRLI(ins, fmap):
     dst, src1, src2 = ins.operands
-    src1.sf = src2.sf = False
+    src1, src2 = _unsigned(src1), _unsigned(src2)
     if dst is not zero:
         fmap[dst] = fmap(src1 >> src2)
 
@@ -228,7 +245,7 @@ def i_BNE(ins, fmap):
 
 def i_BLT(ins, fmap):
     r1, r2, imm = ins.operands
-    _t = fmap(r1).signed() < fmap(r2).signed()
+    _t = _signed(fmap(r1)) < _signed(fmap(r2))
     fmap[pc] = tst(_t, fmap(pc + imm), fmap(pc + ins.length)).simplify()
 
 
@@ -239,7 +256,7 @@ def i_BLTU(ins, fmap):
 
 def i_BGE(ins, fmap):
     r1, r2, imm = ins.operands
-    _t = fmap(r1).signed() >= fmap(r2).signed()
+    _t = _signed(fmap(r1)) >= _signed(fmap(r2))
     fmap[pc] = tst(_t, fmap(pc + imm), fmap(pc + ins.length)).simplify()
 
 
